@@ -62,7 +62,7 @@ def _matches(st, targets, calls, raises):
     return None
 
 
-def slice_function(relpath, func, targets, params, cls=None, calls=(), raises=False, returns=None, name='sliced', verbose=False, flatten_loops=False, closure=False):
+def slice_function(relpath, func, targets, params, cls=None, calls=(), raises=False, returns=None, name='sliced', verbose=False, flatten_loops=False, closure=False, closure_exclude=()):
     """returns (callable_factory, source_text). callable_factory(globals_dict) -> function(*params)"""
     f = get_function(relpath, func, cls)
     found = set()
@@ -99,15 +99,27 @@ def slice_function(relpath, func, targets, params, cls=None, calls=(), raises=Fa
             found.clear()
             body = prune(f.body)
             used = set()
+
+            def collect(node, local):
+                if isinstance(node, ast.FunctionDef):
+                    loc = set(local) | {a.arg for a in node.args.args}
+                    for sub in ast.walk(node):
+                        if isinstance(sub, ast.Name) and isinstance(sub.ctx, ast.Store):
+                            loc.add(sub.id)
+                    for ch in node.body:
+                        collect(ch, loc)
+                    return
+                if isinstance(node, ast.Name) and isinstance(node.ctx, ast.Load) and node.id not in local:
+                    used.add(node.id)
+                for ch in ast.iter_child_nodes(node):
+                    collect(ch, local)
             for st in body:
-                for n in ast.walk(st):
-                    if isinstance(n, ast.Name) and isinstance(n.ctx, ast.Load):
-                        used.add(n.id)
+                collect(st, set())
             assigned = set()
             for n in ast.walk(f):
                 for t in _targets(n) if isinstance(n, (ast.Assign, ast.AugAssign, ast.AnnAssign)) else []:
                     assigned.add(t)
-            new = [u for u in used if u in assigned and u not in targets]
+            new = [u for u in used if u in assigned and u not in targets and u not in closure_exclude]
             if not new:
                 break
             targets += new
